@@ -220,6 +220,31 @@ def iter_laziness(prog, cf: CacheFacts) -> Tuple[str, str]:
             return "lazy", f"self.{cf.list_field} iterated directly"
         if cf.is_dict(e, f):
             return "materialised-dict", "iterates the dict, which __getitem__ does not modify"
+        d = dotted(e)
+        if d and len(d) == 2 and d[0] == f.self_name and depth < 4:
+            # another field of the cache (a cached snapshot): classify everything the class ever stores into it; when the
+            # snapshot must be dropped is the derived-state rule's business
+            vals = []
+            for m in cf.cls.methods.values():
+                if m.self_name is None:
+                    continue
+                for n in walk_own(m.node):
+                    if isinstance(n, ast.Assign) and any(dotted(t) == (m.self_name, d[1]) for t in n.targets) \
+                            and not (isinstance(n.value, ast.Constant) and n.value.value is None):
+                        vals.append(n.value)
+            if vals:
+                kinds = []
+                for v in vals:
+                    if isinstance(v, (ast.List, ast.ListComp, ast.Tuple)) or (isinstance(v, ast.Call) and src(v.func) in MATERIALISERS):
+                        kinds.append("materialised")
+                    elif isinstance(v, ast.GeneratorExp) or (isinstance(v, ast.Call) and src(v.func) in ("iter", "map", "filter", "zip")):
+                        kinds.append("lazy")
+                    else:
+                        kinds.append("unknown")
+                if all(k == "materialised" for k in kinds):
+                    return "materialised", f"snapshot kept in self.{d[1]}"
+                if any(k == "lazy" for k in kinds):
+                    return "lazy", f"self.{d[1]} holds a lazy view of self.{cf.list_field}"
         return "unknown", src(e)
 
     if f.is_generator:
@@ -521,6 +546,8 @@ def rule_lookup_source(prog, rep: Report, cf: CacheFacts, rule: str):
         rep.unrec(rule, f, "lookup-source", "no return in __getitem__")
         return
     bad = []
+    unknown: List[str] = []
+    memo: List[str] = []
     seen_ok = 0
     for r in rets:
         roots = []
@@ -536,17 +563,35 @@ def rule_lookup_source(prog, rep: Report, cf: CacheFacts, rule: str):
                 v = d.value
                 if isinstance(v, ast.Subscript) and cf.is_dict(v.value, f) and src(v.slice) == k:
                     seen_ok += 1
+                elif isinstance(v, ast.Call) and isinstance(v.func, ast.Attribute) and v.func.attr == "get" and cf.is_dict(v.func.value, f) \
+                        and v.args and src(v.args[0]) == k:
+                    # dict.get(k): fine when a None test turns the miss into KeyError
+                    tested = any(isinstance(c, ast.Compare) and isinstance(c.left, ast.Name) and c.left.id == n.id
+                                 and isinstance(c.ops[0], (ast.Is, ast.IsNot)) for c in ast.walk(f.node))
+                    raises = any(isinstance(x, ast.Raise) and x.exc is not None and "KeyError" in src(x.exc) for x in ast.walk(f.node))
+                    if tested and raises:
+                        seen_ok += 1
+                    else:
+                        unknown.append(f"`{src(v)}` without a None test raising KeyError")
                 elif d.kind == "param":
                     continue
+                elif isinstance(v, ast.Attribute) and dotted(v) and len(dotted(v)) == 2 and dotted(v)[0] == f.self_name \
+                        and dotted(v)[1] not in (cf.dict_field, cf.list_field, cf.cap_field):
+                    # a remembered node: whether it is still the node stored under k is the derived-state rule's question
+                    memo.append(dotted(v)[1])
                 else:
                     bad.append((getattr(d.node, "lineno", r.lineno),
                                 f"`{n.id}` can reach `{src(r)}` from `{src(v) if isinstance(v, ast.AST) else d.kind}`, not from "
                                 f"self.{cf.dict_field}[{k}]"))
+    if unknown and not bad:
+        rep.unrec(rule, f, "lookup-source", unknown[0])
+        return
     if bad:
         ln, why = sorted(set(bad))[0]
         rep.viol(rule, f, "lookup-source", why,
                  scenario="c[k]; del c[k]; c[k] returns the stale value instead of raising KeyError (and `k in c` stays True)", line=ln)
     elif seen_ok or all(any(isinstance(n, ast.Subscript) and cf.is_dict(n.value, f) for n in ast.walk(r.value)) for r in rets):
-        rep.ok(rule, f, "lookup-source", f"the returned node comes from self.{cf.dict_field}[{k}] on every path")
+        rep.ok(rule, f, "lookup-source", f"the returned node comes from self.{cf.dict_field}[{k}] on every path"
+               + (f" or from the remembered node(s) self.{', self.'.join(sorted(set(memo)))} (freshness: derived-state rule)" if memo else ""))
     else:
         rep.unrec(rule, f, "lookup-source", "source of the returned payload not recognised")
